@@ -345,6 +345,7 @@ def c05(tier):
         'phases': [
             {'kind': 'replay', 'model': MS('serial_S6', 'serial', 'S6'), 'kinds': ALLKINDS[:8], 'sample': 0.03 if q else 0.6},
             {'kind': 'drive', 'profile': 'serial', 'traces': 160 if q else 3000, 'steps': 50},
+            {'kind': 'drive', 'profile': 'serial', 'traces': 48 if q else 800, 'steps': 25, 'extra': ['-spread', '4096']},
         ],
     }
 
@@ -360,6 +361,7 @@ def c06(tier):
             {'kind': 'replay', 'model': MS('serial_S6', 'serial', 'S6'), 'kinds': ALLKINDS[:8], 'sample': 0.01 if q else 0.3, 'extra': ['-opfilter', 'ser']},
             {'kind': 'drive', 'profile': 'legal', 'traces': 120 if q else 2500, 'steps': 40},
             {'kind': 'drive', 'profile': 'serial', 'traces': 80 if q else 1500, 'steps': 40},
+            {'kind': 'drive', 'profile': 'serial', 'traces': 48 if q else 800, 'steps': 25, 'extra': ['-spread', '4096']},
         ],
     }
 
